@@ -1,4 +1,5 @@
 import SemverGen.RustPrelude
+import SemverGen.Winnow
 /-!
 # Definitions extracted from the Rust source by `translator/` (rs2lean)
 
@@ -641,4 +642,151 @@ def Semver.Gen.caret_table (parsed : Semver.Partial) : (Option Semver.BoundSet) 
   | { major := (some major), minor := (some minor), patch := none, .. } => (Semver.BoundSet.rs_new (Semver.Bound.lo (Semver.Pred.inc (Rust.into (major, minor, (0 : Nat))))) (Semver.Bound.up (Semver.Pred.exc (Rust.into ((major + 1), (0 : Nat), (0 : Nat), (0 : Nat))))))
   | { major := (some major), minor := (some minor), patch := (some patch), pre := pre_release, .. } => (Semver.BoundSet.rs_new (Semver.Bound.lo (Semver.Pred.inc ({ major := major, minor := minor, patch := patch, pre := pre_release, build := [] } : Semver.Version))) (Semver.Bound.up (Semver.Pred.exc (match (major, minor, patch) with | (0, 0, n) => (Rust.into ((0 : Nat), (0 : Nat), (n + 1), (0 : Nat)) : Semver.Version) | (0, n, _) => (Rust.into ((0 : Nat), (n + 1), (0 : Nat), (0 : Nat)) : Semver.Version) | (n, _, _) => (Rust.into ((n + 1), (0 : Nat), (0 : Nat), (0 : Nat)) : Semver.Version)))))
   | _ => none)
+
+/-- closure of `number()` (line 715) -/
+def Semver.Gen.number_check (copied : (List Char)) (raw : (List Char)) : (Except Semver.PErr Nat) := do
+  let value ← (Rust.map_err (Rust.str_parse_u64 raw) (fun e => ({ rest := copied, ctx := none, kind := (some (Rust.parse_int_error_kind e)) } : Semver.PErr)))
+  if (Rust.gt value Semver.MAX_SAFE_INTEGER) then
+    throw ({ rest := copied, ctx := none, kind := (some (Semver.EKind.maxInt value)) } : Semver.PErr)
+  pure value
+
+/-- parser `number` (lib.rs:711-734) -/
+def Semver.Gen.number : Winnow.Parser Nat := do
+  let copied ← Winnow.getInput
+  (Winnow.context "number component" (Winnow.tryMap (Winnow.take Winnow.digit1) (Semver.Gen.number_check copied)))
+
+/-- closure of `identifier()` (line 701) -/
+def Semver.Gen.identifier_classify (s : (List Char)) : Semver.Ident :=
+  (Rust.unwrap_or_else (Rust.map (Rust.str_parse_u64 s) Semver.Ident.num) (fun _err => (Semver.Ident.alpha s)))
+
+/-- parser `identifier` (lib.rs:698-709) -/
+def Semver.Gen.identifier : Winnow.Parser Semver.Ident := fun input =>
+  (Winnow.context "identifier" (Winnow.map (Winnow.takeWhile1 (fun x => ((Rust.is_ascii_alphanumeric x) || (Rust.REq.eq x ('-'))))) Semver.Gen.identifier_classify)) input
+
+/-- parser `pre_release` (lib.rs:692-696) -/
+def Semver.Gen.pre_release : Winnow.Parser (List Semver.Ident) := fun input =>
+  (Winnow.context "pre_release version" (Winnow.preceded (Winnow.opt (Winnow.literal ['-'])) (Winnow.separated1 Semver.Gen.identifier (Winnow.literal ['.'])))) input
+
+/-- parser `build` (lib.rs:686-690) -/
+def Semver.Gen.build : Winnow.Parser (List Semver.Ident) := fun input =>
+  (Winnow.context "build version" (Winnow.preceded (Winnow.literal ['+']) (Winnow.separated1 Semver.Gen.identifier (Winnow.literal ['.'])))) input
+
+/-- `enum Extras`: no counterpart in the model; generated as it is declared -/
+inductive Semver.Gen.Extras where
+  | Build (x0 : (List Semver.Ident))
+  | Release (x0 : (List Semver.Ident))
+  | ReleaseAndBuild (x0 : ((List Semver.Ident) × (List Semver.Ident)))
+
+/-- `Extras::values` (lib.rs:624-631) -/
+def Semver.Gen.Extras.rs_values (self : Semver.Gen.Extras) : ((List Semver.Ident) × (List Semver.Ident)) :=
+  (match self with
+  | (Semver.Gen.Extras.Release ident) => (ident, [])
+  | (Semver.Gen.Extras.Build ident) => ([], ident)
+  | (Semver.Gen.Extras.ReleaseAndBuild ident) => ident)
+
+/-- parser `extras` (lib.rs:660-675) -/
+def Semver.Gen.extras : Winnow.Parser ((List Semver.Ident) × (List Semver.Ident)) := fun input =>
+  (Winnow.map (Winnow.opt (Winnow.alt [(Winnow.map (Winnow.seq2 Semver.Gen.pre_release Semver.Gen.build) Semver.Gen.Extras.ReleaseAndBuild), (Winnow.map Semver.Gen.pre_release Semver.Gen.Extras.Release), (Winnow.map Semver.Gen.build Semver.Gen.Extras.Build)])) (fun extras => (match extras with | (some extras) => (Semver.Gen.Extras.rs_values extras) | _ => default))) input
+
+/-- parser `version_core` (lib.rs:678-683) -/
+def Semver.Gen.version_core : Winnow.Parser (Nat × Nat × Nat) := fun input =>
+  (Winnow.context "version core" (Winnow.map (Winnow.seq5 Semver.Gen.number (Winnow.literal ['.']) Semver.Gen.number (Winnow.literal ['.']) Semver.Gen.number) (fun (major, _, minor, _, patch) => (major, minor, patch)))) input
+
+/-- parser `version` (lib.rs:638-658) -/
+def Semver.Gen.version : Winnow.Parser Semver.Version := fun input =>
+  (Winnow.context "version" (Winnow.map (Winnow.seq6 (Winnow.opt (Winnow.alt [(Winnow.literal ['v']), (Winnow.literal ['V'])])) Winnow.space0 Semver.Gen.version_core Semver.Gen.extras Winnow.space0 Winnow.eof) (fun (_, _, (major, minor, patch), (pre_release, build), _, _) => ({ major := major, minor := minor, patch := patch, pre := pre_release, build := build } : Semver.Version)))) input
+
+/-- parser `x_or_asterisk` (range.rs:939-941) -/
+def Semver.Gen.x_or_asterisk : Winnow.Parser Unit := fun input =>
+  (Winnow.map (Winnow.alt [(Winnow.literal ['x']), (Winnow.literal ['X']), (Winnow.literal ['*'])]) (fun _ => ())) input
+
+/-- parser `component` (range.rs:931-937) -/
+def Semver.Gen.component : Winnow.Parser (Option Nat) := fun input =>
+  (Winnow.alt [(Winnow.map Semver.Gen.x_or_asterisk (fun _ => none)), (Winnow.map Semver.Gen.number some)]) input
+
+/-- parser `partial_version` (range.rs:902-929) -/
+def Semver.Gen.partial_version : Winnow.Parser Semver.Partial := do
+  let _ ← (Winnow.opt (Winnow.literal ['v']))
+  let _ ← Winnow.space0
+  let major ← Semver.Gen.component
+  let minor ← (Winnow.opt (Winnow.preceded (Winnow.literal ['.']) Semver.Gen.component))
+  let patch ← (Winnow.opt (Winnow.preceded (Winnow.literal ['.']) Semver.Gen.component))
+  let (pre, build) ← (do
+      if (Rust.is_some patch) then
+        Semver.Gen.extras
+      else
+        pure ([], [])
+      )
+  let minor := (Rust.and major (Rust.flatten minor))
+  let patch := (Rust.and minor (Rust.flatten patch))
+  let (pre, build) := (if (Rust.is_some patch) then (pre, build) else ([], []))
+  pure ({ major := major, minor := minor, patch := patch, pre := pre, build := build } : Semver.Partial)
+
+/-- parser `operation` (range.rs:827-837) -/
+def Semver.Gen.operation : Winnow.Parser Semver.Operation := fun input =>
+  (Winnow.alt [(Winnow.map (Winnow.literal ['>', '=']) (fun _ => Semver.Operation.ge)), (Winnow.map (Winnow.literal ['>']) (fun _ => Semver.Operation.gt)), (Winnow.map (Winnow.literal ['=']) (fun _ => Semver.Operation.exact)), (Winnow.map (Winnow.literal ['<', '=']) (fun _ => Semver.Operation.le)), (Winnow.map (Winnow.literal ['<']) (fun _ => Semver.Operation.lt))]) input
+
+/-- parser `primitive` (range.rs:687-825) -/
+def Semver.Gen.primitive : Winnow.Parser (Option Semver.BoundSet) := fun input =>
+  (Winnow.context "operation range (ex: >= 1.2.3)" (Winnow.map (Winnow.seq2 Semver.Gen.operation (Winnow.preceded Winnow.space0 Semver.Gen.partial_version)) Semver.Gen.primitive_table)) input
+
+/-- parser `partial` (range.rs:839-875) -/
+def Semver.Gen.partial : Winnow.Parser (Option Semver.BoundSet) := fun input =>
+  (Winnow.context "plain version range (ex: 1.2)" (Winnow.map Semver.Gen.partial_version Semver.Gen.partial_table)) input
+
+/-- parser `tilde_gt` (range.rs:943-949) -/
+def Semver.Gen.tilde_gt : Winnow.Parser (Option (List Char)) := fun input =>
+  (Winnow.map (Winnow.seq4 (Winnow.literal ['~']) Winnow.space0 (Winnow.opt (Winnow.literal ['>'])) Winnow.space0) (fun (_, _, gt, _) => gt)) input
+
+/-- parser `tilde` (range.rs:951-1034) -/
+def Semver.Gen.tilde : Winnow.Parser (Option Semver.BoundSet) := fun input =>
+  (Winnow.context "tilde version range (ex: ~1.2.3)" (Winnow.map (Winnow.seq2 Semver.Gen.tilde_gt Semver.Gen.partial_version) Semver.Gen.tilde_table)) input
+
+/-- parser `caret` (range.rs:1036-1102) -/
+def Semver.Gen.caret : Winnow.Parser (Option Semver.BoundSet) := fun input =>
+  (Winnow.context "caret version range (ex: ^1.2.3)" (Winnow.map (Winnow.preceded (Winnow.seq2 (Winnow.literal ['^']) Winnow.space0) Semver.Gen.partial_version) Semver.Gen.caret_table)) input
+
+/-- parser `hyphen::parser` (range.rs:1106-1154) -/
+def Semver.Gen.hyphen_parser : Winnow.Parser (Option Semver.BoundSet) := do
+  let lower ← (Winnow.opt Semver.Gen.partial_version)
+  let _ ← Winnow.space1
+  let _ ← (Winnow.literal ['-'])
+  let _ ← Winnow.space1
+  let upper ← Semver.Gen.partial_version
+  let upper := (match upper with | { major := none, .. } => Semver.Pred.unb | { major := (some major), minor := none, patch := none, .. } => (Semver.Pred.exc ({ major := (major + 1), minor := 0, patch := 0, pre := [(Semver.Ident.num 0)], build := [] } : Semver.Version)) | { major := (some major), minor := (some minor), patch := none, .. } => (Semver.Pred.exc ({ major := major, minor := (minor + 1), patch := 0, pre := [(Semver.Ident.num 0)], build := [] } : Semver.Version)) | partial_ => (Semver.Pred.inc (Rust.into partial_)))
+  let lower := (Rust.filter lower (fun partial_ => (Rust.is_some partial_.major)))
+  let bounds := (match lower with | (some lower) => (Semver.BoundSet.rs_new (Semver.Bound.lo (Semver.Pred.inc (Rust.into lower))) (Semver.Bound.up upper)) | _ => (if (Rust.REq.eq upper Semver.Pred.unb) then (Semver.BoundSet.rs_at_least (Semver.Pred.inc (Rust.into ((0 : Nat), (0 : Nat), (0 : Nat))))) else (Semver.BoundSet.rs_at_most upper)))
+  pure bounds
+
+/-- parser `hyphen` (range.rs:1105-1159) -/
+def Semver.Gen.hyphen : Winnow.Parser (Option Semver.BoundSet) := fun input =>
+  (Winnow.context "hyphenated version range (ex: 1.2 - 2)" Semver.Gen.hyphen_parser) input
+
+/-- parser `garbage` (range.rs:678-684) -/
+def Semver.Gen.garbage : Winnow.Parser (Option Semver.BoundSet) := fun input =>
+  (Winnow.map (fun s => Winnow.repeatTill0 Winnow.any (Winnow.alt [(Winnow.peek Winnow.space1), (Winnow.peek (Winnow.literal ['|', '|'])), Winnow.eof]) (s.length + 1) s) (fun _ => none)) input
+
+/-- parser `simple` (range.rs:666-676) -/
+def Semver.Gen.simple : Winnow.Parser (Option Semver.BoundSet) := fun input =>
+  (Winnow.alt [(Winnow.terminated Semver.Gen.hyphen (Winnow.peek (Winnow.alt [Winnow.space1, (Winnow.literal ['|', '|']), Winnow.eof]))), (Winnow.terminated Semver.Gen.primitive (Winnow.peek (Winnow.alt [Winnow.space1, (Winnow.literal ['|', '|']), Winnow.eof]))), (Winnow.terminated Semver.Gen.partial (Winnow.peek (Winnow.alt [Winnow.space1, (Winnow.literal ['|', '|']), Winnow.eof]))), (Winnow.terminated Semver.Gen.tilde (Winnow.peek (Winnow.alt [Winnow.space1, (Winnow.literal ['|', '|']), Winnow.eof]))), (Winnow.terminated Semver.Gen.caret (Winnow.peek (Winnow.alt [Winnow.space1, (Winnow.literal ['|', '|']), Winnow.eof]))), Semver.Gen.garbage]) input
+
+/-- parser `range` (range.rs:644-663) -/
+def Semver.Gen.range : Winnow.Parser (List Semver.BoundSet) := fun input =>
+  (Winnow.map (Winnow.separated0 Semver.Gen.simple Winnow.space1) Semver.Gen.range_fold) input
+
+/-- parser `logical_or` (range.rs:640-642) -/
+def Semver.Gen.logical_or : Winnow.Parser Unit := fun input =>
+  (Winnow.map (Winnow.delimited Winnow.space0 (Winnow.literal ['|', '|']) Winnow.space0) (fun _ => ())) input
+
+/-- parser `bound_sets` (range.rs:633-639) -/
+def Semver.Gen.bound_sets : Winnow.Parser (List Semver.BoundSet) := fun input =>
+  (Winnow.map (Winnow.separated0 Semver.Gen.range Semver.Gen.logical_or) Semver.Gen.bound_sets_flatten) input
+
+/-- closure of `range_set()` (line 618) -/
+def Semver.Gen.range_set_check (input : (List Char)) (sets : (List Semver.BoundSet)) : (Except Semver.PErr Semver.Range) :=
+  (if (Rust.is_empty sets) then (Except.error ({ rest := input, kind := (some Semver.EKind.noValidRanges), ctx := none } : Semver.PErr)) else (Except.ok sets))
+
+/-- parser `range_set` (range.rs:616-630) -/
+def Semver.Gen.range_set : Winnow.Parser Semver.Range := fun input =>
+  (Winnow.tryMap (Winnow.preceded Winnow.space0 Semver.Gen.bound_sets) (Semver.Gen.range_set_check input)) input
 
